@@ -338,6 +338,9 @@ impl Entities {
     /// This is an awkward separate function to avoid borrowck issues in `SpawnColumnBatchIter`.
     pub fn finish_alloc_many(&mut self, pending_end: usize) {
         self.pending.truncate(pending_end);
+        // Keep the free cursor in step with the shortened freelist
+        let new_free_cursor = self.pending.len() as isize;
+        *self.free_cursor.get_mut() = new_free_cursor;
     }
 
     /// Allocate a specific entity ID, overwriting its generation
